@@ -7,9 +7,9 @@ func init() {
 			"Fill-in: under each validity combination of (arrival, departure) the value stored in ArrivalTime/DepartureTime must come from a valid side. Inheritance: stores under the option touch only WheelchairBoarding, guarded by parent present and own value unspecified, and store the parent's value. " +
 			"Not decided: that the decoders are applied to every row (C01), numeric parsing.",
 		Rules: []Rule{
-			{Name: "DEF", Doc: "blank = absent = GTFS default for every default-bearing column", MinInstances: 20, Run: runDefaults},
-			{Name: "FILL", Doc: "arrival/departure fill-in takes the valid side", MinInstances: 2, Run: runFillIn},
-			{Name: "INH", Doc: "wheelchair inheritance is guarded and touches nothing else", MinInstances: 2, Run: runInheritance},
+			{Name: "DEF", Doc: "blank = absent = GTFS default for every default-bearing column", MinInstances: 14, Run: runDefaults},
+			{Name: "FILL", Doc: "arrival/departure fill-in takes the valid side", MinInstances: 1, Run: runFillIn},
+			{Name: "INH", Doc: "wheelchair inheritance is guarded and touches nothing else", MinInstances: 1, Run: runInheritance},
 		},
 	})
 }
